@@ -350,7 +350,8 @@ def run_case(case):
             labels.add("environment-installed-again")
         else:
             raise InvalidCase(op)
-        if verify_on and not late:
+        look = ("every", "every", "sparse", "end")[len(case["ops"]) % 4]      # how often the listings are inspected between operations
+        if verify_on and not late and (look == "every" or (look == "sparse" and k % 3 == 2)):
             verify(where)
     if late:
         for m_ in models:
